@@ -44,6 +44,77 @@ var c06Stores = [][][2]string{
 	{{"a", "12"}, {"ab", "-3"}, {"b", "2.5"}, {"c", "9223372036854775807"}, {"d", "-9223372036854775808"}, {"e", "1e308"}, {"f", "99999999999999999999"}, {"g", "NaN"}, {"h", "Inf"}},
 	{{"j1", `{"a": 1, "b": "x", "l": [1, 2, "s"], "o": {"p": null}}`}, {"j2", `[1,2]`}, {"j3", `{"a": "str", "l": {}}`}, {"j4", `{`}, {"j5", `null`}, {"j6", `{"a": 1.5e300}`}},
 	{{"\xff\xfe", "\x00\x80"}, {"a\x00b", "\xc3\x28"}, {"\xe2\x82", "ok"}, {"z", "\xf0\x9f\x98\x80"}},
+	w5C06LongStore(),
+}
+
+// w5C06LongStore: 44 pairs k00..k43 whose values cycle through eleven kinds (integer, text,
+// float, comma list, empty, negative, huge float, boolean text, JSON with a numeric and with a
+// textual member, non-UTF-8): every chunk of every batch size holds columns of mixed dynamic
+// type, ORDER BY sees mixed kinds in one column, aggregates see text they cannot convert.
+func w5C06LongStore() [][2]string {
+	vals := []string{"12", "abc", "2.5", "x,y,z", "", "-3", "1e308", "true", `{"a": 1, "l": [1, 2]}`, `{"a": "s"}`, "\xff\x00"}
+	var out [][2]string
+	for i := 0; i < 44; i++ {
+		out = append(out, [2]string{fmt.Sprintf("k%02d", i), vals[i%len(vals)]})
+	}
+	return out
+}
+
+// w5C06Shapes: statement shapes that exercise what Proofs/NoPanicVecProofs.v,
+// NoPanicPlanProofs.v, NoPanicOrderProofs.v and NoPanicAggrProofs.v prove about the twins:
+// long chunks with mixed-type columns, aliases in batch mode over point reads, ORDER BY over
+// mixed kinds, aggregates over unconvertible text.  They are part of the corpus (so they are
+// also mutated) and additionally run on the long store in row mode and in batch mode with
+// every batch size (w5C06Jobs).
+var w5C06Shapes = []string{
+	// long chunks, mixed-type columns: every vector body and every binary operator loop
+	"select key, int(value) + 1, float(value) * 2, upper(value), is_int(value), is_float(value), split(value, ',')[1] where key >= ''",
+	"select key, value where int(value) > 1 | value ^= 'a' | strlen(value) between 1 and 3",
+	"select key where value in ('12', 'abc', '2.5') & key between 'k00' and 'k99'",
+	"select key, substr(value, 1, 3), len(split(value, ',')), join('-', key, value), lower(key + value) where key ^= 'k'",
+	"select key, cosine_distance(list(1, 2, 3), list(int(value), 2, 3)), l2_distance(list(float(value), 1), list(1, 2)) where key ^= 'k'",
+	"select key, cosine_distance(split(value, ','), list(1, 2, 3)) where key ^= 'k'",
+	"select key, int(value) / (strlen(value) + 1), value + '1', !is_int(value), value = '12', key = value where key > 'k1'",
+	"select key, int(value) / strlen(value), float(value) / int(value) where key > 'k1'",
+	"select key, json(value)['a'], json(value)['l'][1] where key >= 'k0' & value ~= '^[{]'",
+	"select key, json(value)['l']['x'], json(value)['a'][0] where key >= 'k0' & value ~= '^[{]'",
+	"select key, value, int(value) as n where key < 'k20' & value != '' limit 3, 50",
+	"select key, strlen(value) where key > 'k10' & key <= 'k30' & !(value ^= '{')",
+	// aliases in batch mode over point reads (MultiGet chunks shorter than the key list)
+	"select key, upper(value) as u, u + 'x' as w, strlen(w) where key in ('k01', 'k02', 'k03', 'k04', 'k05', 'k06', 'k07') & u != 'ABC'",
+	"select key, int(value) as n, n * 2 as m, m + n where key = 'k03' | key = 'k05' | key = 'k08'",
+	"select key, list(n, n + 1) as l, int(value) as n where key in ('k00', 'k08', 'k16', 'zz') & n in l",
+	"select key, split(value, ',') as parts, parts[0] where key in ('k03', 'k11', 'k14', 'k25', 'k36', 'nokey') & 'x' in parts",
+	"select key, u, upper(value) as u, join(',', u, u) where key in ('k40', 'k41', 'k42', 'k43', 'k44') limit 1, 3",
+	// ORDER BY over mixed kinds (text / numbers / booleans / JSON members in one column)
+	"select key, value as v where key >= '' order by v",
+	"select key, int(value) + 0 as n, float(value) as f where key > '' order by f, n desc",
+	"select key, is_int(value) as b, value as v where key > '' order by b desc, v",
+	"select key, json(value)['a'] as a, int(value) as n where key >= '' order by a, n desc limit 3, 30",
+	"select value as v, sum(int(value)) as s, avg(float(value)) as a where key > '' group by v order by a desc, s",
+	"select key, split(value, ',') as l where key > '' order by l",
+	"select value as v, sum(value) as s, min(value) as m, count(1) as c where key > '' group by v order by s desc, m, c",
+	"select key, int(value) + 0 as n, value + '' as t where key > '' order by n desc, t, key limit 30, 10",
+	// aggregates over unconvertible text
+	"select sum(value), avg(value), min(value), max(value), count(1), group_concat(value, '|'), json_arrayagg(value) where key > ''",
+	"select value, sum(value), min(key), max(upper(value)) where key > '' group by value",
+	"select sum(float(value)) / count(1), max(int(value)) - min(int(value)), avg(strlen(value)) * 2 where key >= ''",
+	"select is_int(value) as g, sum(key), avg(upper(value)), min(split(value, ',')[0]), quantile(value, 0.5) where key >= '' group by g",
+	"select substr(key, 0, 2) as g, json_arrayagg(float(value)), group_concat(json(value)['a'], ';'), sum(1) / count(value) where key >= '' group by g limit 0, 2",
+	// the same over DELETE (batch scan + filter, no projection)
+	"delete where upper(value) = 'ABC' | int(value) > 5 limit 7",
+	"delete where key <= 'k05' & strlen(value) >= 0",
+}
+
+func w5C06Jobs(jobs []c06Job) []c06Job {
+	long := len(c06Stores) - 1
+	for _, q := range w5C06Shapes {
+		jobs = append(jobs, c06Job{ID: len(jobs), Query: q, Store: long, Batch: false, B: 1, Pad: 0})
+		for _, b := range []int{1, 3, 7, 32, 100} {
+			jobs = append(jobs, c06Job{ID: len(jobs), Query: q, Store: long, Batch: true, B: b, Pad: 7})
+		}
+	}
+	return jobs
 }
 
 func c06RunOne(j c06Job) (out c06Out) {
@@ -276,6 +347,7 @@ func c06Corpus(r *rng, n int) []string {
 		"select * where key = 'a' limit 99999999999999999999",
 		"select * where key = 'a' limit -1, 2",
 	}
+	base = append(base, w5C06Shapes...)
 	g := newEgen(r)
 	out := append([]string{}, base...)
 	for len(out) < n {
@@ -301,11 +373,12 @@ func runC06(c *runCtx) error {
 	r := newRng(c.seed)
 	header := "From Coq Require Import List String ZArith.\nFrom KV Require Import Base.Bytes Model.Ast Model.Value Corr.EvalCommon Corr.C06.\nImport ListNotations.\nOpen Scope string_scope.\n"
 	e := newEmitter(c.out, "C06", header, 250)
-	e.m.Rule = "valid statements (README examples, typed grammar for every statement kind), single-edit corruptions at token and byte level, byte mutations, deep nesting (4 kB) x 5 hostile stores (empty, non-numeric, extreme numbers, mixed-type JSON, non-UTF-8) x {row, batch} x B in {1,3,32} x paddings; each case in a child process; non-trivial = the case differs from every other case text; the Coq side re-evaluates the select fields of valid statements with the proved-panic-free evaluator twin"
+	e.m.Rule = "valid statements (README examples, typed grammar for every statement kind), single-edit corruptions at token and byte level, byte mutations, deep nesting (4 kB) x 6 hostile stores (empty, non-numeric, extreme numbers, mixed-type JSON, non-UTF-8, 44 pairs of mixed kinds) x {row, batch} x B in {1,3,32} x paddings; plus the shapes of w5C06Shapes (long chunks with mixed-type columns, aliases over point reads, ORDER BY over mixed kinds, aggregates over unconvertible text) on a 44-pair mixed store in row mode and batch mode with B in {1,3,7,32,100}; each case in a child process; non-trivial = the case differs from every other case text; the Coq side re-evaluates the select fields of valid statements with the proved-panic-free evaluator twin"
 	nValid, nMut := 150, 5
 	if c.thorough() || c.search {
 		nValid, nMut = 1500, 12
 	}
+	nValid += len(w5C06Shapes) // the generated part of the corpus keeps its size
 	corpus := c06Corpus(r, nValid)
 	var queries []string
 	for _, q := range corpus {
@@ -337,6 +410,7 @@ func runC06(c *runCtx) error {
 			jobs = append(jobs, j)
 		}
 	}
+	jobs = w5C06Jobs(jobs)
 	results := map[int]c06Out{}
 	chunk := 400
 	for i := 0; i < len(jobs); i += chunk {
